@@ -1403,7 +1403,7 @@ func (s *State) checkASAInterfaces() error {
 		for _, c := range cfg.lookup["access-group"][""] {
 			tokens := strings.Fields(c.parsed)
 			if len(tokens) == 5 {
-				m[tokens[4]] = []*cmd{c}
+				m[tokens[4]] = append(m[tokens[4]], c)
 			}
 		}
 		for _, c := range cfg.lookup["crypto map interface"][""] {
